@@ -127,7 +127,8 @@ FieldDom(f, base) ==
     [] f.k = "arru8"  -> {[j \in 1..f.cnt |-> 0], [j \in 1..f.cnt |-> 255 - j]}
     \* element counts: few, and the protocol maximum (frames of several hundred bytes: size bytes above 63 in compressed mode)
     [] f.k = "vec"    -> {[j \in 1..n |-> BaseRec(f.sub, j)] : n \in (IF Tier = "quick" THEN {0, 1, 3} ELSE 0..8) \cup {f.pmax}}
-    [] f.k = "vecw32" -> {[j \in 1..n |-> <<j, 7>>] : n \in {0, 1, 3, f.pmax}}
+    \* (identifiers that are zero or spell a built-in car - "XFG" NUL - are identifiers like any other here)
+    [] f.k = "vecw32" -> {[j \in 1..n |-> <<j, 7>>] : n \in {0, 1, 3, f.pmax}} \cup {<< <<0, 0>>, <<18008, 71>>, <<13638, 90>>, <<5, 7>> >>}
     [] f.k = "vecip"  -> {[j \in 1..n |-> <<j, 2, 3, 4>>] : n \in {0, 1, 3, f.pmax}}
     [] f.k = "small"  -> AllSmall
     [] f.k = "cim"    -> AllCim
